@@ -40,7 +40,8 @@ def make_traj(rng, n, exact):
         else:
             k = np.cumsum(rng.integers(0, 3, size=n))
             R = np.array([rm.rodrigues([0, 0, 1], kk * PI / 8) for kk in k])
-        t = float(rng.integers(0, 100)) + np.cumsum(rng.integers(1, 9, size=n)) / 8.0
+        # dyadic stamps: eighths of a second, or the sample grid of a 1024 Hz / 4096 Hz sensor
+        t = float(rng.integers(0, 100)) + np.cumsum(rng.integers(1, 9, size=n)) / [8.0, 8.0, 1024.0, 4096.0][rng.integers(4)]
         return {"p": p, "R": R, "t": t, "exact": True}
     cls = ["walk", "utm", "stationary_mix", "circle", "tiny"][rng.integers(5)]
     p = gen.positions_of_class(rng, n, cls)
@@ -49,6 +50,9 @@ def make_traj(rng, n, exact):
         p[j:] += rng.normal(size=3) * (np.std(p) + 1) * 20
     R = gen.rotations_of_class(rng, n, ["smooth", "uniform", "identity", "mixed"][rng.integers(4)])
     t = gen.stamps_of_class(rng, n, ["epoch", "small", "irregular", "dyadic"][rng.integers(4)])
+    if rng.random() < .15:
+        # high-rate sensors: 200 Hz .. 4096 Hz sample grids (steps that are no whole nanoseconds)
+        t = float(rng.integers(0, 1000)) + np.arange(n) / [200.0, 1000.0, 1024.0, 3000.0, 4096.0][rng.integers(5)]
     for k in range(1, n):
         if t[k] <= t[k - 1]:
             t[k] = np.nextafter(t[k - 1], np.inf)
